@@ -72,7 +72,14 @@ def py_tip(t):
     if "one" in t:
         return py_tipelem(t["one"])
     seq = [py_tipelem(e) for e in t["many"]]
-    return tuple(seq) if t.get("tuple") else seq
+    kind = t.get("as") or ("tuple" if t.get("tuple") else "list")
+    if kind == "list":
+        return seq
+    import numpy
+
+    # any iterable of tips is a collection: tuples, sets, frozensets, dict keys, arrays
+    return {"tuple": tuple, "set": set, "frozenset": frozenset, "dictkeys": lambda x: dict.fromkeys(x).keys(),
+            "array": lambda x: numpy.array([int(v) for v in x])}[kind](seq)
 
 
 def py_kw(kw):
@@ -258,6 +265,8 @@ def call(op, lws, wl):
             v = py_vol(vol["v"])
         elif vol["t"] == "list":
             v = [py_vol(x) for x in vol["v"]]
+        elif vol["t"] == "nested":
+            v = [[py_vol(x)] for x in vol["v"]]  # one-element lists instead of numbers
         else:
             v = tuple(py_vol(x) for x in vol["v"])
         kwargs = dict(arm=op.get("arm", 0), label=op.get("label"))
@@ -463,7 +472,7 @@ def run_program(case):
                 pass
         obs["steps"].append(step)
         capture()
-    if any(op["op"] == "set_max" for op in case["ops"]):
+    if any(op["op"] == "set_max" or (op["op"] in ("evo_asp", "evo_disp") and op["volume"]["t"] not in ("scalar", "list")) for op in case["ops"]):
         obs["no_model"] = True  # re-assigning max_volume is not an operation of the model: property oracles only
     obs["final"] = {
         "hist": [[[lab, [frac_str(Fraction(x)) if x == x and abs(x) != float("inf") else repr(x) for x in arr.flatten().tolist()]]
